@@ -412,7 +412,7 @@ pub fn edges_for(prop: Prop, tier: Tier, r: &dyn Runner, st: &St) -> Vec<Edge> {
 }
 
 /// Which oracle classes a property reports.
-pub fn reports(prop: Prop, class: Class, e: &Edge) -> bool {
+pub fn reports(prop: Prop, class: Class, kind: &str, e: &Edge) -> bool {
     let _ = e;
     if class == Class::Machinery { return true; }
     match prop {
@@ -422,7 +422,8 @@ pub fn reports(prop: Prop, class: Class, e: &Edge) -> bool {
         Prop::C08 => matches!(class, Class::Vec | Class::Type | Class::Cap | Class::Mem),
         Prop::C03 => class == Class::Own,
         Prop::C04 => matches!(class, Class::Type | Class::Vec | Class::Own),
-        Prop::C05 => class == Class::Mem,
+        // reads of unwritten / moved-out / stale memory surface as garbage (poison, broken canary) in a result
+        Prop::C05 => class == Class::Mem || (class == Class::Own && matches!(kind, "garbage-visible" | "garbage-drop" | "clone-of-garbage")),
         Prop::C06 | Prop::C07 => matches!(class, Class::Own | Class::Vec | Class::Mem),
         Prop::C10 => matches!(class, Class::Cap | Class::Vec),
         Prop::C11 => matches!(class, Class::Cap | Class::Vec | Class::Alloc),
